@@ -249,7 +249,7 @@ def shard_plan(hs, n):
 def replay_counterexample(prop, r, shard_k):
     """Re-runs the failing harness with concrete playback, then executes the generated unit test
     natively (`cargo kani playback`) against the same real code. Returns (path, reproduced)."""
-    rdir = os.path.join(ROOT, "evidence", "replay", prop)
+    rdir = os.path.join(os.environ.get("VERIF_EVIDENCE_DIR") or os.path.join(ROOT, "evidence"), "replay", prop)
     os.makedirs(rdir, exist_ok=True)
     path = os.path.join(rdir, r.h.name + ".json")
     info = {"property": prop, "harness": r.h.full_name, "failed_checks": r.failed_checks,
@@ -357,8 +357,9 @@ def write_evidence(prop, tier, seed, results, wall, cmds, known_lines, violation
         "wall_s": round(wall, 2),
         "violations": len(violations),
     }
-    os.makedirs(os.path.join(ROOT, "evidence"), exist_ok=True)
-    json.dump(ev, open(os.path.join(ROOT, "evidence", prop + ".json"), "w"), indent=1)
+    evdir = os.environ.get("VERIF_EVIDENCE_DIR") or os.path.join(ROOT, "evidence")  # experiments on modified trees write elsewhere
+    os.makedirs(evdir, exist_ok=True)
+    json.dump(ev, open(os.path.join(evdir, prop + ".json"), "w"), indent=1)
 
 
 def check(prop, tier):
@@ -444,12 +445,37 @@ def check(prop, tier):
 
     rc = 0
     confirmed = []
+    # Counterexamples are replayed natively before anything is reported.  Replaying is slow (two more builds per
+    # harness), so once one counterexample of this run has been confirmed the remaining failing harnesses are
+    # reported alongside it without their own replay (VERIF_MAX_REPLAY raises the number).
+    max_replay = int(os.environ.get("VERIF_MAX_REPLAY", "1"))
+    violations.sort(key=lambda r: r.time_s)
+    unreplayed = []
     for r in violations:
+        if sum(1 for c in confirmed if c[2]) >= max_replay and not os.environ.get("VERIF_NO_REPLAY") == "1":
+            unreplayed.append(r)
+            continue
+        if os.environ.get("VERIF_NO_REPLAY") == "1":
+            # development aid for sweeps over many modified trees: record the solver's verdict without the
+            # (slow) native replay; never used by the registered commands
+            rdir = os.path.join(os.environ.get("VERIF_EVIDENCE_DIR") or os.path.join(ROOT, "evidence"), "replay", prop)
+            os.makedirs(rdir, exist_ok=True)
+            path = os.path.join(rdir, r.h.name + ".json")
+            json.dump({"property": prop, "harness": r.h.full_name, "failed_checks": r.failed_checks,
+                       "note": "replay skipped (VERIF_NO_REPLAY)"}, open(path, "w"), indent=1)
+            confirmed.append((r, path, None))
+            continue
         path, reproduced = replay_counterexample(prop, r, shard_of.get(r.h.full_name, 0))
         if reproduced is False:
             inconclusive.append(r.h.name + ": counterexample did not reproduce natively (encoding or model suspect), see " + path)
             continue
         confirmed.append((r, path, reproduced))
+    if confirmed:
+        for r in unreplayed:
+            r.note = "failed as well; not replayed separately (another counterexample of this run was confirmed natively)"
+    else:
+        for r in unreplayed:
+            inconclusive.append(r.h.name + ": failing, not replayed")
     # known-finding reproducers count as discharged obligations for evidence purposes only if they behaved as expected
     for r in ordered:
         if r.h.known and r.verdict == "violation" and known.get(r.h.name):
@@ -457,6 +483,8 @@ def check(prop, tier):
             r.covers_total = max(r.covers_total, 1)
             r.covers_sat = r.covers_total
     write_evidence(prop, tier, seed, ordered, time.time() - t0, cmds, known_lines, [c[0] for c in confirmed], inconclusive)
+    for r in (unreplayed if confirmed else []):
+        print("  also failing (not replayed separately): %s: %s" % (r.h.name, "; ".join(r.failed_checks[:2])))
     for r, path, reproduced in confirmed:
         print("VIOLATION property=%s replay=%s" % (prop, path))
         print("  harness %s failed: %s%s" % (r.h.name, "; ".join(r.failed_checks[:4]),
